@@ -56,6 +56,8 @@ type SliceV struct {
 }
 
 type FuncV struct {
+	AbstractID *Term      // non-nil: a function value of unknown identity
+	AbsType    types.Type // its (named) function type
 	Decl  *ast.FuncDecl
 	Lit   *ast.FuncLit
 	Env   *Env
@@ -318,6 +320,10 @@ func (ex *Exec) symbolicValue(name string, t types.Type) Value {
 			av.Elems[i] = ex.symbolicValue(fmt.Sprintf("%s[%d]", name, i), u.Elem())
 		}
 		return av
+	case *types.Interface, *types.Signature:
+		v := ex.abstractValue(name, t, false)
+		_ = u
+		return v
 	case *types.Slice:
 		// arbitrary slice: arbitrary non-negative length, arbitrary elements
 		sv := &SymSliceV{Len: ts.Var(name+".len", BVSort(64)), Elem: u.Elem()}
@@ -471,9 +477,16 @@ func (ex *Exec) iteValue(c *Term, a, b Value) Value {
 			r.IsNil = ex.ts.Ite(c, x.IsNil, y.IsNil)
 		}
 		return r
+	case *AbstractIfaceV:
+		if y, ok := b.(*AbstractIfaceV); ok {
+			return &AbstractIfaceV{ID: ex.ts.Ite(c, x.ID, y.ID), Typ: x.Typ}
+		}
 	case *FuncV:
 		y, ok := b.(*FuncV)
-		if ok && x.Decl == y.Decl && x.Lit == y.Lit && x.Named == y.Named && x.Env == y.Env {
+		if ok && x.AbstractID != nil && y.AbstractID != nil {
+			return &FuncV{AbstractID: ex.ts.Ite(c, x.AbstractID, y.AbstractID), AbsType: x.AbsType}
+		}
+		if ok && x.Decl == y.Decl && x.Lit == y.Lit && x.Named == y.Named && x.Env == y.Env && x.AbstractID == nil && y.AbstractID == nil {
 			return x
 		}
 		unsupported("merge of different function values")
@@ -651,8 +664,15 @@ func (ex *Exec) eqValue(a, b Value) *Term {
 		if y, ok := b.(*SliceV); ok && y.Nil {
 			return ts.Bool(x.Nil)
 		}
+	case *AbstractIfaceV:
+		if y, ok := b.(*IfaceV); ok && y.Nil {
+			return ts.Eq(x.ID, ts.BV(0, 64))
+		}
 	case *FuncV:
 		if y, ok := b.(*FuncV); ok && y.Named == "<nil>" {
+			if x.AbstractID != nil {
+				return ts.Eq(x.AbstractID, ts.BV(0, 64))
+			}
 			return ts.Bool(x.Named == "<nil>")
 		}
 	case *MapV:
